@@ -9,26 +9,26 @@ import json, os, subprocess, sys
 ROOT = os.path.dirname(os.path.dirname(os.path.abspath(__file__)))
 TEMPLATE = open(os.path.join(ROOT, 'tools', 'seed_prompt.txt')).read()
 EARLIER = {
- 'C01': ['f2 hoisted out of the source loop in compute_rhs', 'compute() skipping the matrix fill when a matrix exists', 'resistance of a ground-pulse load not doubled', "image half of an end-2 ground pulse along the straight continuation", "k9 normalised with ff_power (requested power)"],
- 'C02': ['is_non_vertical_grounded looking at end 1 only', 'end2 of an end-2 ground pulse built from seg0', 'same_geobj by logical_or in compute_impedance_matrix', "sgn[0] for sgn[1] when picking the other wire's segment at an end-2 junction", "same-segmentation guard comparing the two halves of the observer pulse"],
- 'C03': ['the image leg of an end-2 ground pulse', 'f2 hoisted out of the source loop in compute_rhs', 'a tolerance in is_non_vertical_grounded', "exact-kernel permission in the image pass keyed on the junction pulse's main wire", "load doubling keyed on the pulse sign pattern"],
- 'C04': ['ground sign instead of direction sign in the near-field helper', 'near-field helper arrays cached across a frequency change', 'E_phi not transposed in Far_Field_Pattern', "image-pass mask by pulse sign in compute_near_field", "near-field charge term dividing by the other half's segment length"],
- 'C05': ['Wire.endpoints not refreshed by transformations', 'transformations sorted by option text', 'taper limits from the unscaled radius under --geo-scale', "end-2 ground pulse image point computed relative instead of absolute", "reversed composition order in Rotation_Matrix"],
- 'C06': ['is_non_vertical_grounded', 'sgn[0] instead of sgn[1] in the end-2 block of the pulse construction', 'transposed radius lookup in the thin-wire self term of vector_potential', "near-field charge term dividing by the other half's segment length", "near-field second half directed along the first half (nf_helper d2)"],
- 'C07': ['f2 hoisted out of the source loop in compute_rhs', 'k9 normalised with the requested far-field power', 'compute_rhs keeping the old right-hand side', "compute() skipping the matrix fill so that loads are added again", "conj() applied to the scalar product in the total power"],
- 'C08': ['load weight doubled only for end-1 ground pulses', 'skin effect using the model-wide conductivity', 'insulation load junction pulse to a later bare wire (fix_distributed_loads)', "'if not load.n' in register_load (load registered twice)", "compute() skipping the matrix fill"],
- 'C09': ['end_segs in the current report', 'Wire.endpoints set once and never refreshed', 'a cache of the second-end J value across solves', "npulse from conn[] in compute_connections", "sign of pulse index 0 lost in Connected_Geobj.pulse_iter"],
- 'C10': ['e_phi scaled with the power ratio instead of its root', 'an absolute noise floor on the far field', 'a cache of the far-field pulse sum keyed by direction grid', "pulse sum reused for all azimuths when all wires are vertical", "measure_time dropping keyword arguments when timing is on"],
- 'C11': ['the sign of the y term of the circular-boundary reflection point', 'ground-pulse load doubling tied to ideal ground in compute_impedance_matrix_loads', 'reflected image of the above-ground half of ground pulses (pv.inv_ground)', "radial-screen impedance mask using media_coord[-2]", "interface coordinates of linear media accumulated with cumsum"],
- 'C12': ['the end-matching tolerance minlen in compute_connections', 'an early return in compute_connections for one-segment wires', 'grounded-end index / self-reference test by tag for closed arcs', "sgn[0] for sgn[1] at an end-2 junction in compute_connections", "min_seglen of a tapered wire taken from its first segment"],
- 'C13': ['the last helix point in Helix.__init__', 'the unscaled radius in compute_taper2_segments', 'geo transformations sorted by option text', "taper2 minimum overwritten by the max-limited first segment", "tag = None hoisted out of the --geo-translate loop"],
- 'C14': ['the frequency stamp of the skin-effect cache (zint_f)', 'srm as a cached_property', 'np.isclose in the frequency setter', "ground impedance of the media cached at the first far-field request", "compute() skipping the matrix fill"],
- 'C15': ['Mininec.cmdline_load_tag sort', 'the maximum of --taper-wire dropped in Wire.as_cmdline', 'helix radius written from the already scaled value', "--attach-load writer skipping a junction pulse whose other wire is fully loaded", "transformations written in sorted tuple order"],
- 'C16': ['Angle.angle_deg', 'np.linspace with end point in the near-field axis fix-up', 'V/m table rows sorted by (azimuth, zenith)', "np.unique on the near-field points when an increment is 0", "near-field grid kept when the new request is np.allclose to the previous one"],
- 'C17': ['the geo object lookup in register_load for all-of-object attachment', 'automatic tag numbering in Geo_Container.compute_tags', 'a stale geo_tag in the source loop of main()', "'if not load.n' in register_load", "vectorised diagonal update losing a pulse named twice by one load"],
- 'C18': ['Medium.as_basic_input interface coordinate', 'the first end of emulated objects in Geobj.as_basic_input', 'Laplace coefficient units for BASIC version 13', "END TWO of a plain wire written with its own coordinates", "Wire.compute_ground zeroing a copy of the end points"],
- 'C19': ['_Load.as_mininec caching the impedance per geo object', 'the phase unit in Excitation.as_mininec_short', 'npulse / end_segs for the J rows of the current table', "POWER line of the source blocks printing the total power", "E(PHI) magnitude / phase columns swapped in the V/m table"],
- 'C20': ['the range check in register_source', 'sorted(geo_transforms) without key', 'complex power overflow in Laplace_Load.impedance; non-finite radial radius', "sweep step of exactly 0 MHz passing the frequency check", "taper2 tolerance computed before the minimum is raised (AssertionError for >= 100 segments)"],
+ 'C01': ['f2 hoisted out of the source loop in compute_rhs', 'compute() skipping the matrix fill when a matrix exists', 'resistance of a ground-pulse load not doubled', "image half of an end-2 ground pulse along the straight continuation", "k9 normalised with ff_power (requested power)", "total power summed over delivering sources only"],
+ 'C02': ['is_non_vertical_grounded looking at end 1 only', 'end2 of an end-2 ground pulse built from seg0', 'same_geobj by logical_or in compute_impedance_matrix', "sgn[0] for sgn[1] when picking the other wire's segment at an end-2 junction", "same-segmentation guard comparing the two halves of the observer pulse", "thick-wire radius term applied only when the whole batch is thick (integral_i2_i3)"],
+ 'C03': ['the image leg of an end-2 ground pulse', 'f2 hoisted out of the source loop in compute_rhs', 'a tolerance in is_non_vertical_grounded', "exact-kernel permission in the image pass keyed on the junction pulse's main wire", "load doubling keyed on the pulse sign pattern", "absolute 1 mm tolerance in Geobj.compute_ground"],
+ 'C04': ['ground sign instead of direction sign in the near-field helper', 'near-field helper arrays cached across a frequency change', 'E_phi not transposed in Far_Field_Pattern', "image-pass mask by pulse sign in compute_near_field", "near-field charge term dividing by the other half's segment length", "sign of Im(dAy/dz) in the H_x curl term"],
+ 'C05': ['Wire.endpoints not refreshed by transformations', 'transformations sorted by option text', 'taper limits from the unscaled radius under --geo-scale', "end-2 ground pulse image point computed relative instead of absolute", "reversed composition order in Rotation_Matrix", "--geo-scale applied before rotate/translate in main()"],
+ 'C06': ['is_non_vertical_grounded', 'sgn[0] instead of sgn[1] in the end-2 block of the pulse construction', 'transposed radius lookup in the thin-wire self term of vector_potential', "near-field charge term dividing by the other half's segment length", "near-field second half directed along the first half (nf_helper d2)", "same_geobj by logical_or"],
+ 'C07': ['f2 hoisted out of the source loop in compute_rhs', 'k9 normalised with the requested far-field power', 'compute_rhs keeping the old right-hand side', "compute() skipping the matrix fill so that loads are added again", "conj() applied to the scalar product in the total power", "total power as a cached property not reset by compute()"],
+ 'C08': ['load weight doubled only for end-1 ground pulses', 'skin effect using the model-wide conductivity', 'insulation load junction pulse to a later bare wire (fix_distributed_loads)', "'if not load.n' in register_load (load registered twice)", "compute() skipping the matrix fill", "skin-effect frequency stamp kept on the load instead of the wire"],
+ 'C09': ['end_segs in the current report', 'Wire.endpoints set once and never refreshed', 'a cache of the second-end J value across solves', "npulse from conn[] in compute_connections", "sign of pulse index 0 lost in Connected_Geobj.pulse_iter", "squared distance compared with the end-matching length"],
+ 'C10': ['e_phi scaled with the power ratio instead of its root', 'an absolute noise floor on the far field', 'a cache of the far-field pulse sum keyed by direction grid', "pulse sum reused for all azimuths when all wires are vertical", "measure_time dropping keyword arguments when timing is on", "cached pulse positions mirrored in place by the image pass of compute_far_field"],
+ 'C11': ['the sign of the y term of the circular-boundary reflection point', 'ground-pulse load doubling tied to ideal ground in compute_impedance_matrix_loads', 'reflected image of the above-ground half of ground pulses (pv.inv_ground)', "radial-screen impedance mask using media_coord[-2]", "interface coordinates of linear media accumulated with cumsum", "'coord or 1e6' in the Medium constructor"],
+ 'C12': ['the end-matching tolerance minlen in compute_connections', 'an early return in compute_connections for one-segment wires', 'grounded-end index / self-reference test by tag for closed arcs', "sgn[0] for sgn[1] at an end-2 junction in compute_connections", "min_seglen of a tapered wire taken from its first segment", "one-sided ground test 0 <= z < eps"],
+ 'C13': ['the last helix point in Helix.__init__', 'the unscaled radius in compute_taper2_segments', 'geo transformations sorted by option text', "taper2 minimum overwritten by the max-limited first segment", "tag = None hoisted out of the --geo-translate loop", "Curve.scale scaling the unscaled radius"],
+ 'C14': ['the frequency stamp of the skin-effect cache (zint_f)', 'srm as a cached_property', 'np.isclose in the frequency setter', "ground impedance of the media cached at the first far-field request", "compute() skipping the matrix fill", "far-field default power taken from nf_power"],
+ 'C15': ['Mininec.cmdline_load_tag sort', 'the maximum of --taper-wire dropped in Wire.as_cmdline', 'helix radius written from the already scaled value', "--attach-load writer skipping a junction pulse whose other wire is fully loaded", "transformations written in sorted tuple order", "Medium.as_cmdline writing the interface coordinate for the first medium only"],
+ 'C16': ['Angle.angle_deg', 'np.linspace with end point in the near-field axis fix-up', 'V/m table rows sorted by (azimuth, zenith)', "np.unique on the near-field points when an increment is 0", "near-field grid kept when the new request is np.allclose to the previous one", "azimuth grid inheriting the integer dtype of the zenith Angle"],
+ 'C17': ['the geo object lookup in register_load for all-of-object attachment', 'automatic tag numbering in Geo_Container.compute_tags', 'a stale geo_tag in the source loop of main()', "'if not load.n' in register_load", "vectorised diagonal update losing a pulse named twice by one load", "vectorised compute_rhs assigning voltages to sorted pulse indices"],
+ 'C18': ['Medium.as_basic_input interface coordinate', 'the first end of emulated objects in Geobj.as_basic_input', 'Laplace coefficient units for BASIC version 13', "END TWO of a plain wire written with its own coordinates", "Wire.compute_ground zeroing a copy of the end points", "source phase written with %d in Excitation.as_basic_input"],
+ 'C19': ['_Load.as_mininec caching the impedance per geo object', 'the phase unit in Excitation.as_mininec_short', 'npulse / end_segs for the J rows of the current table', "POWER line of the source blocks printing the total power", "E(PHI) magnitude / phase columns swapped in the V/m table", "peak value of the H near field computed from the wrong vector"],
+ 'C20': ['the range check in register_source', 'sorted(geo_transforms) without key', 'complex power overflow in Laplace_Load.impedance; non-finite radial radius', "sweep step of exactly 0 MHz passing the frequency check", "taper2 tolerance computed before the minimum is raised (AssertionError for >= 100 segments)", "format/argument mismatch in Series_RLC_Load.as_cmdline for zero values"],
 }
 rnd = sys.argv[1]
 props = {json.loads(l)['id']: json.loads(l) for l in open(os.path.join(ROOT, 'properties.jsonl'))}
